@@ -417,7 +417,7 @@ fn f3a() -> Result<String, String> {
 fn f3b() -> Result<String, String> {
     use std::io::Write as _;
     let mut n = 0;
-    for (min_shift, depth) in [(14i32, 11i32), (0, 5), (40, 10), (63, 1), (-1, 5), (14, -1), (14, 255)] {
+    for (min_shift, depth) in [(14i32, 11i32), (0, 5), (40, 10), (63, 1), (-1, 5), (14, -1), (14, 255), (14, 10), (1, 10)] {
         n += 1;
         let mut raw = b"CSI\x01".to_vec();
         raw.extend(min_shift.to_le_bytes()); raw.extend(depth.to_le_bytes()); raw.extend(0i32.to_le_bytes());
